@@ -278,6 +278,10 @@ func (i *interpreter) slice(x, lo, hi, max value) value {
 		Cap = len(a)
 	case opaqueStr:
 		panic(unsupported{"slicing opaque string: " + x.desc})
+	case symStr:
+		Len = len(x.bs)
+	case enumStr:
+		panic(unsupported{"slicing an enumerated symbolic string"})
 	}
 
 	l := int64(0)
@@ -298,6 +302,8 @@ func (i *interpreter) slice(x, lo, hi, max value) value {
 	switch x := x.(type) {
 	case string:
 		return x[l:h]
+	case symStr:
+		return mkStr(x.bs[l:h])
 	case []value:
 		return x[l:h:m]
 	case *value: // *array
@@ -331,10 +337,34 @@ func (i *interpreter) binop(op token.Token, t types.Type, x, y value) value {
 	if isSym(x) || isSym(y) {
 		return i.symBinop(op, t, x, y)
 	}
+	switch x.(type) {
+	case symStr:
+		return i.symStrBinop(op, x, y)
+	case enumStr:
+		return i.enumStrBinop(op, x, y)
+	}
+	switch y.(type) {
+	case symStr:
+		return i.symStrBinop(op, x, y)
+	case enumStr:
+		return i.enumStrBinop(op, x, y)
+	}
 	if op == token.EQL || op == token.NEQ {
 		if containsSym(x) || containsSym(y) {
 			return i.symBinop(op, t, x, y)
 		}
+	}
+	if _, ok := x.(symStr); ok {
+		return i.symStrBinop(op, x, y)
+	}
+	if _, ok := y.(symStr); ok {
+		return i.symStrBinop(op, x, y)
+	}
+	if _, ok := x.(enumStr); ok {
+		return i.enumStrBinop(op, x, y)
+	}
+	if _, ok := y.(enumStr); ok {
+		return i.enumStrBinop(op, x, y)
 	}
 	if _, ok := x.(decStr); ok {
 		if op == token.EQL || op == token.NEQ {
@@ -1065,6 +1095,10 @@ func (i *interpreter) callBuiltin(caller *frame, callpos token.Pos, fn *ssa.Buil
 			return x.length()
 		case opaqueStr:
 			panic(unsupported{"len of opaque string: " + x.desc})
+		case symStr:
+			return len(x.bs)
+		case enumStr:
+			panic(unsupported{"len of an enumerated symbolic string"})
 		default:
 			panic(fmt.Sprintf("len: illegal operand: %T", x))
 		}
@@ -1562,4 +1596,55 @@ func fandbits[F floaty](x, y F) F {
 		*(*uint64)(unsafe.Pointer(&x)) &= *(*uint64)(unsafe.Pointer(&y))
 	}
 	return x
+}
+
+func (i *interpreter) symStrBinop(op token.Token, x, y value) value {
+	xb, okx := strBytes(x)
+	yb, oky := strBytes(y)
+	if !okx || !oky {
+		panic(unsupported{fmt.Sprintf("symbolic string %s with %T/%T", op, x, y)})
+	}
+	switch op {
+	case token.ADD:
+		return mkStr(append(append([]value(nil), xb...), yb...))
+	case token.EQL, token.NEQ:
+		var t *Term
+		if len(xb) != len(yb) {
+			t = FalseT
+		} else {
+			var cs []*Term
+			for k := range xb {
+				cs = append(cs, i.symEq(nil, xb[k], yb[k]))
+			}
+			t = And(cs...)
+		}
+		if op == token.NEQ {
+			t = Not(t)
+		}
+		return mkBool(t)
+	}
+	panic(unsupported{fmt.Sprintf("operator %s on a symbolic string", op)})
+}
+
+func (i *interpreter) enumStrBinop(op token.Token, x, y value) value {
+	if op != token.EQL && op != token.NEQ {
+		panic(unsupported{fmt.Sprintf("operator %s on an enumerated symbolic string", op)})
+	}
+	e, ok := x.(enumStr)
+	other := y
+	if !ok {
+		e, other = y.(enumStr), x
+	}
+	s := goString(other, "comparison with enumerated string")
+	var cs []*Term
+	for k, ts := range e.table {
+		if ts == s {
+			cs = append(cs, Eq(e.idx, BVConst(8, uint64(k))))
+		}
+	}
+	t := Or(cs...)
+	if op == token.NEQ {
+		t = Not(t)
+	}
+	return mkBool(t)
 }
